@@ -25,6 +25,9 @@ def _parse_with_comm(tr, pidmap):
     m = re.search(r"granted: (yes|no)", tr)
     if m:
         d["cgranted"] = 1 if m.group(1) == "yes" else 0
+    m = re.search(r"timeout: (yes|none)", tr)
+    if m:
+        d["ctimeout"] = 1 if m.group(1) == "yes" else 0
     return d
 
 
@@ -50,6 +53,12 @@ def desc_of_view(v):
         f = [0, v["c"], v["f"], v["d"], v["o"]]
     elif t == "ACTOR_SLEEP":
         f = []
+    elif t == "CONDVAR_ASYNC_LOCK":
+        f = [v["o"], v.get("m", 0)]
+    elif t == "CONDVAR_WAIT":
+        f = [v["o"], v.get("m", 0), v.get("g", 0), v.get("to", 0)]
+    elif t in ("CONDVAR_SIGNAL", "CONDVAR_BROADCAST"):
+        f = [v["o"]]
     else:
         raise vlib.InfraError("transition type without a builder: %s" % t)
     return "%d 0 %s %s" % (a, t, " ".join(str(int(x)) for x in f))
@@ -57,8 +66,11 @@ def desc_of_view(v):
 
 def view_of_step(s):
     """View record of a step of a real execution (checker's record merged in the handle line by the harness)."""
-    return {"t": s["ctype"], "a": s["ca"], "o": s.get("cobj", 0), "c": s.get("ccomm", 0), "f": _end(s.get("cfrom", 0)),
-            "d": _end(s.get("cto", 0)), "w": _end(s.get("cown", 0)), "g": s.get("cgranted", 0), "cap": s.get("ccap", 0)}
+    cv = s["ctype"].startswith("CONDVAR_")
+    return {"t": s["ctype"], "a": s["ca"], "o": s.get("ccond", 0) if cv else s.get("cobj", 0), "c": s.get("ccomm", 0),
+            "f": _end(s.get("cfrom", 0)), "d": _end(s.get("cto", 0)), "w": _end(s.get("cown", 0)), "g": s.get("cgranted", 0),
+            "cap": s.get("ccap", 0), "m": s.get("cobj", 0) if s["ctype"] in ("CONDVAR_ASYNC_LOCK", "CONDVAR_WAIT") else 0,
+            "to": s.get("ctimeout", 0)}
 
 
 def _end(x):
@@ -96,7 +108,9 @@ def condition(v1, v2):
 OPTYPES = {"lock": ("MUTEX_ASYNC_LOCK", "MUTEX_WAIT"), "trylock": ("MUTEX_TRYLOCK",), "unlock": ("MUTEX_UNLOCK",),
            "acq": ("SEM_ASYNC_LOCK", "SEM_WAIT"), "rel": ("SEM_UNLOCK",), "bar": ("BARRIER_ASYNC_LOCK", "BARRIER_WAIT"),
            "put": ("iSend", "WaitComm"), "get": ("iRecv", "WaitComm"), "puta": ("iSend",), "putd": ("iSend",),
-           "geta": ("iRecv",), "wait": ("WaitComm",), "test": ("TestComm",), "sleep": ("ActorSleep",)}
+           "geta": ("iRecv",), "wait": ("WaitComm",), "test": ("TestComm",), "sleep": ("ActorSleep",),
+           "cvwait": ("CONDVAR_ASYNC_LOCK", "CONDVAR_WAIT", "MUTEX_WAIT"), "cvwaitfor": ("CONDVAR_ASYNC_LOCK", "CONDVAR_WAIT", "MUTEX_WAIT"),
+           "sig": ("CONDVAR_SIGNAL",), "bcast": ("CONDVAR_BROADCAST",)}
 
 def executions(prog, res, indices=False):
     """The executions explored by one simgrid-mc run (result of mcbind_common.run_simgrid_mc): one list of steps per
